@@ -1,6 +1,6 @@
 //! C10 — modular inversion and gcd (op names start with `c10.`)
 //!
-//! Fixed widths 1,2,3,4,6,8,16,32 limbs (concrete aliases: the `PrecomputeInverter` impls exist per
+//! Fixed widths 1,2,3,4,5,6,7,8,16,32 limbs (concrete aliases: the `PrecomputeInverter` impls exist per
 //! alias), `BoxedUint` at any limb count given on the line.
 use crate::util::*;
 use crypto_bigint::modular::{
@@ -8,7 +8,7 @@ use crypto_bigint::modular::{
 };
 use crypto_bigint::{
     BoxedUint, Gcd, InvMod, Invert, Inverter, NonZero, Odd, PrecomputeInverter, U64, U128, U192, U256,
-    U384, U512, U1024, U2048, impl_modulus,
+    U384, U448, U512, U1024, U2048, U320, impl_modulus,
 };
 use subtle::CtOption;
 
@@ -148,6 +148,8 @@ impl_fixed!(fixed1, U64, 1);
 impl_fixed!(fixed2, U128, 2);
 impl_fixed!(fixed3, U192, 3);
 impl_fixed!(fixed4, U256, 4);
+impl_fixed!(fixed5, U320, 5);
+impl_fixed!(fixed7, U448, 7);
 impl_fixed!(fixed6, U384, 6);
 impl_fixed!(fixed8, U512, 8);
 impl_fixed!(fixed16, U1024, 16);
@@ -519,6 +521,8 @@ pub fn dispatch(op: &str, a: &[&str]) -> Option<String> {
             2 => fixed2(op, rest),
             3 => fixed3(op, rest),
             4 => fixed4(op, rest),
+            5 => fixed5(op, rest),
+            7 => fixed7(op, rest),
             6 => fixed6(op, rest),
             8 => fixed8(op, rest),
             16 => fixed16(op, rest),
